@@ -22,7 +22,8 @@ Section Dec.
 End Dec.
 
 Definition optN_eqb : option N -> option N -> bool := opt_eqb N.eqb.
-Definition kind_eqb (a b : kind) : bool := optN_eqb (k_near a) (k_near b) && dtype_eqb (k_dt a) (k_dt b).
+Definition kind_eqb (a b : kind) : bool :=
+  optN_eqb (k_near a) (k_near b) && N.eqb (k_nkey a) (k_nkey b) && dtype_eqb (k_dt a) (k_dt b).
 Fixpoint tree_eqb (a b : tree) : bool :=
   match a, b with
   | T i n k ks, T i' n' k' ks' =>
@@ -51,8 +52,10 @@ Definition wf_b (g : graph) : bool :=
 Definition absids_distinct_b (g : graph) : bool := nodup_b okey_eqb (map (absid g) (g_objs g)).
 (* AbsIDs of the edges are pairwise distinct *)
 Definition ekeys_distinct_b (g : graph) : bool := nodup_b ekey_eqb (map (ekey_of g) (nonlife (g_edges g))).
-(* `near: <constant>` only on children of the root (d2compiler: "constant near keys can only be set on
-   root level shapes"), and the constant is one of the 8 known ones (class 0, 1 or 2) *)
+(* a `near` key that is the name of a near constant occurs only on children of the root (d2compiler: "constant
+   near keys can only be set on root level shapes" -- but it only says so for keys that ARE constants at compile
+   time: `near: top-left` on a nested shape is accepted when a root shape is NAMED top-left), and the constant
+   is one of the 8 known ones (class 0, 1 or 2) *)
 Fixpoint no_near_t (t : tree) : bool :=
   match t with T _ _ k ks => negb (is_some (k_near k)) && forallb no_near_t ks end.
 Definition near_ok (o : option N) : bool := match o with None => true | Some c => N.ltb c 3 end.
